@@ -37,6 +37,8 @@ class RefResult:
         self.choosers = st.choosers
         self.chooser_failed = st.chooser_failed
         self.tmpl_reads = st.tmpl_reads
+        # bodies the eager computation ran ONLY inside coalesce members that failed (nested failures counted once per level)
+        self.failed_member_bodies = {b for b, c in st.failed_member_counts.items() if c >= st.touched.count(b)}
 
     def key(self):
         return ("ok", self.value) if self.ok else ("fail", self.fails)
@@ -50,6 +52,7 @@ class _State:
         self.reads = {}       # key -> present?
         self.read_log = []    # (key, present?) in order
         self.tmpl_reads = {}  # keys read as template references -> present?
+        self.failed_member_counts = {}  # body -> times the eager computation ran it inside a coalesce member that failed
         self.choosers = set() # bodies executed while computing a value that selects a branch / assignment
         self.chooser_depth = 0
         self.chooser_failed = False
@@ -381,7 +384,11 @@ class Ref:
         fails = set()
         for i, m in enumerate(n["members"]):
             mark = len(self.st.read_log)
+            mark_t = len(self.st.touched)
             ok, v = self.attempt(lambda: self.ev(m, o))
+            if not ok:
+                for b_ in self.st.touched[mark_t:]:
+                    self.st.failed_member_counts[b_] = self.st.failed_member_counts.get(b_, 0) + 1
             if ok:
                 if i > 0:
                     self.st.labels.add("coalesce-fallthrough")
